@@ -74,9 +74,13 @@ fn gen_conn(rng: &mut Prng, focus: Focus, server_role: bool, body_hint: usize, c
         c.changes.push(SettingsChange { when, settings: s });
     }
     if rng.below(4) == 0 { c.conn_window_bonus = *rng.pick(&[1000u32, 65535, 1_000_000]); }
+    // per-frame updates (eager / drip / time-based) for a body of hundreds of frames put hundreds of WINDOW_UPDATE frames
+    // behind the END_STREAM that sozu has already sent; sozu counts each as a "glitch" and documents a cumulative cap of
+    // 100 per connection (h2_max_glitch_count): large transfers use consumption thresholds instead
+    if body_hint > 300_000 { if let WuMode::Eager | WuMode::Drip(_) | WuMode::Late(_) = c.wu.stream { c.wu.stream = WuMode::Threshold(16384); } }
     // a threshold above the stream window we advertise would never be reached: the update would only come from the
     // fallback timer, tens of virtual milliseconds per window, and a large body would look starved by sozu
-    let iws = c.settings.initial_window_size.unwrap_or(65535);
+    let iws = c.changes.iter().filter_map(|ch| ch.settings.initial_window_size).chain(std::iter::once(c.settings.initial_window_size.unwrap_or(65535))).min().unwrap_or(65535);
     if let WuMode::Threshold(t) | WuMode::Drip(t) = c.wu.stream { if t >= iws { c.wu.stream = WuMode::WhenExhausted; } }
     // sozu documents a flood detector for stream-0 WINDOW_UPDATE frames (100 per window): megabytes through a 64 kB
     // connection window would need more than that within one window of (fast) virtual time. A well-behaved peer
